@@ -2,16 +2,21 @@
 """Prints the prompt for an independent breakage agent (property text only; nothing from /verif)."""
 import subprocess, sys
 pid = sys.argv[1]
+round2 = len(sys.argv) > 2 and sys.argv[2] == '2'
+wt = 'seed2-' + pid if round2 else 'seed-' + pid
 text = subprocess.check_output(['/verif/tools/prop_text.py', pid]).decode()
-print('''You are a software engineer asked to produce realistic REGRESSIONS of the Python web framework falconry/falcon for a mutation-style study. You work ONLY inside your own scratch git worktree of the repository: /tmp/seed-%(pid)s (a checkout of the current HEAD, pure-Python sources). Never read or write anything under /verif, never touch /repo, never use git commands that affect other worktrees (no `git worktree`, no `git checkout` of branches; `git diff` and `git checkout -- <file>` inside your worktree are fine; do NOT use `git stash` — the stash is shared between all worktrees of the repository and other engineers are working in sibling worktrees; keep your variants as diff files and use `git apply` / `git apply -R`).
+KINDS2 = '''This time the two changes must be of these kinds: change 1 manifests ONLY through a multi-step history on the same object / app / connection (an earlier operation sets up state that a later one trips over), or through a particular interleaving or a fault injected at a particular point — never through a single call on fresh state; change 2 consists of TWO cooperating edits at different sites (possibly different files) that each look harmless and each alone keeps the property intact, but together break it. Avoid the most obvious single-line condition flips.
+
+'''
+print('''You are a software engineer asked to produce realistic REGRESSIONS of the Python web framework falconry/falcon for a mutation-style study. You work ONLY inside your own scratch git worktree of the repository: /tmp/%(wt)s (a checkout of the current HEAD, pure-Python sources). Never read or write anything under /verif, never touch /repo, never use git commands that affect other worktrees (no `git worktree`, no `git checkout` of branches; `git diff` and `git checkout -- <file>` inside your worktree are fine; do NOT use `git stash` — the stash is shared between all worktrees of the repository and other engineers are working in sibling worktrees; keep your variants as diff files and use `git apply` / `git apply -R`).
 
 Here is a semantic property that falcon is supposed to satisfy:
 
 %(text)s
 Your task: produce TWO different changes to the falcon source (each a small patch, 1-15 changed lines, to files under falcon/ in your worktree; different mechanisms / different code sites from each other) such that each change
   (1) BREAKS the property above — some input / sequence of operations / schedule for which the changed code violates the statement, while the unchanged code satisfies it;
-  (2) still imports and passes the repository's existing test-suite: run `cd /tmp/seed-%(pid)s && PYTHONPATH=/tmp/seed-%(pid)s /venv/bin/python -m pytest tests -q -p no:cacheprovider -n 8 --timeout=900 --continue-on-collection-errors 2>&1 | tail -5` (baseline on the unchanged worktree: 3440 passed plus 16 pre-existing collection errors in tests/test_uri_templates.py and one expected failure tests/test_cython.py::TestCythonized::test_imported_from_c_modules because compiled modules are absent — those are not yours). Your change must not add any new failing test. Do not edit the tests;
+  (2) still imports and passes the repository's existing test-suite: run `cd /tmp/%(wt)s && PYTHONPATH=/tmp/%(wt)s /venv/bin/python -m pytest tests -q -p no:cacheprovider -n 8 --timeout=900 --continue-on-collection-errors 2>&1 | tail -5` (baseline on the unchanged worktree: 3440 passed plus 16 pre-existing collection errors in tests/test_uri_templates.py and one expected failure tests/test_cython.py::TestCythonized::test_imported_from_c_modules because compiled modules are absent — those are not yours). Your change must not add any new failing test. Do not edit the tests;
   (3) needs something SPECIFIC to manifest — a particular interleaving, a fault at a particular point, a multi-step sequence of operations, an unusual input (a boundary length, a rare character class, a specific option combination), or two cooperating sites that each look fine alone — NOT something ordinary use would expose at once. Think of the kind of subtle bug a plausible refactoring, optimisation or "simplification" would introduce;
-  (4) comes with a demonstration: a small standalone Python program `demo.py` (run as `PYTHONPATH=/tmp/seed-%(pid)s /venv/bin/python demo.py`, importing falcon from the worktree; it must only use public falcon APIs and the stdlib) that exits 0 and prints PASS on the unchanged source and exits 1 and prints FAIL (with what went wrong) with your change applied. Verify both directions yourself.
+  (4) comes with a demonstration: a small standalone Python program `demo.py` (run as `PYTHONPATH=/tmp/%(wt)s /venv/bin/python demo.py`, importing falcon from the worktree; it must only use public falcon APIs and the stdlib) that exits 0 and prints PASS on the unchanged source and exits 1 and prints FAIL (with what went wrong) with your change applied. Verify both directions yourself.
 
-Deliverables, in the directory /tmp/seed-%(pid)s/_out/ (create it): for change k in {1,2}: `change<k>.diff` (output of `git diff` for that change alone, relative to the worktree root), `demo<k>.py`, and `meta<k>.json` with keys: "property": "%(pid)s", "summary" (one sentence: what the change does), "needs" (what specific input/sequence/schedule it needs in order to manifest), "tests_run" (the exact command and its last line of output with the change applied), "demo_unchanged" and "demo_changed" (the outputs you observed). Leave the worktree's tracked files UNCHANGED at the end (git checkout -- falcon) so that only _out/ holds your results. Final message: a short summary of the two changes.''' % {'pid': pid, 'text': text})
+%(kinds)sDeliverables, in the directory /tmp/%(wt)s/_out/ (create it): for change k in {1,2}: `change<k>.diff` (output of `git diff` for that change alone, relative to the worktree root), `demo<k>.py`, and `meta<k>.json` with keys: "property": "%(pid)s", "summary" (one sentence: what the change does), "needs" (what specific input/sequence/schedule it needs in order to manifest), "tests_run" (the exact command and its last line of output with the change applied), "demo_unchanged" and "demo_changed" (the outputs you observed). Leave the worktree's tracked files UNCHANGED at the end (git checkout -- falcon) so that only _out/ holds your results. Final message: a short summary of the two changes.''' % {'pid': pid, 'text': text, 'wt': wt, 'kinds': KINDS2 if round2 else ''})
